@@ -17,7 +17,7 @@ EXPLANATION = (
     "the quarter table, the time signatures, first/last point and the first measure; (OWN-beat) the beat-mode flag and "
     "TimeSignature.musical_beats are written only by their owners and defaults come from MUSICAL_BEATS; (QDMAP) the "
     "quarter-duration map is a previous-value interpolator clamped to the first/last entry."
-    ' Also (F2b/F2c/F2d/F2h, shared with C01) every write of the quarter table refreshes the cached map, its index arithmetic stays in range on every order type, and the change is propagated over the affected slice.'
+    ' Also (F2b/F2c, shared with C01) every write of the quarter table refreshes the cached map, its index arithmetic stays in range on every order type.'
 )
 NOT_DECIDED = [
     "exact values at arbitrary positions, continuity and monotonicity across change points, single-point parts: arithmetic over "
@@ -199,8 +199,7 @@ def run(ctx):
     # the quarter table itself (shared with C01): writes refresh the cache, indices stay in range, propagation slice
     from ..rules import timeline as TL
     TL.rule_F2b(ctx)
-    TL.rule_F2c_F2d(ctx)
-    TL.rule_F2h(ctx)
+    TL.rule_F2c_F2d(ctx, only_quarter_tables=True)
     fs = [ti, qd] + [prog.func(f"{P}.{m}") for m in ("beat_map", "inv_beat_map", "quarter_map", "inv_quarter_map", "use_musical_beat", "use_notated_beat", "set_musical_beat_per_ts")]
     G.rule_F7a(ctx, fs)
     G.rule_F8a(ctx, [f.qname for f in fs] + ["partitura.utils.generic:interp1d"], "time maps")
